@@ -308,6 +308,23 @@ def generate():
           "`TcpClient::removeConnection`: `if (retry_ && connect_)`", "retry_", "connect_")
     if "restart" not in calls_in(kids(locate_if(rc, "retry_", "connect_"))[1]):
         raise ExtractError("removeConnection: the reconnect branch no longer calls restart()")
+    # TcpClient::newConnection: is `connection_ = conn` (what connection() returns, what disconnect() / ~TcpClient act on)
+    # stored before `conn->connectEstablished()` runs the user's callback with UP?  (order in the statement walk)
+    nc = the_function(cdocs, "newConnection")
+    order = list(walk(body_of(nc)))
+
+    def _callee(n):
+        c = strip(kids(n)[0]) if kids(n) else {}
+        return c.get("name") if c.get("kind") == "MemberExpr" else c.get("referencedDecl", {}).get("name")
+    pub = [i for i, n in enumerate(order) if n.get("kind") == "CXXOperatorCallExpr" and _callee(n) == "operator="
+           and len(kids(n)) == 3 and mentions(kids(n)[1], "connection_") and mentions(kids(n)[2], "conn")]
+    est = [i for i, n in enumerate(order) if n.get("kind") == "CXXMemberCallExpr" and _callee(n) == "connectEstablished"]
+    if len(pub) != 1 or len(est) != 1:
+        raise ExtractError("TcpClient::newConnection: expected one `connection_ = conn` and one `conn->connectEstablished()`, "
+                           "found %d and %d" % (len(pub), len(est)))
+    out.append("/-- `TcpClient::newConnection`: `connection_ = conn` precedes `conn->connectEstablished()` (the UP callback sees "
+               "the connection through `connection()`, `disconnect()` inside it acts on it) -/\n"
+               "def publishBeforeEstablish : Bool := %s\n" % ("true" if pub[0] < est[0] else "false"))
     dt = [f for d in cdocs for f in walk(d) if f.get("kind") == "CXXDestructorDecl" and body_of(f)]
     if len(dt) != 1:
         raise ExtractError("~TcpClient not found")
